@@ -88,7 +88,8 @@ def c02_scaled(tier, seed):
         # input sequences of different lengths beyond the chunk limit (the shortest ending exactly on a chunk boundary): nothing is
         # accepted that was not examined
         b = stages.api_stage("C02", "batch", tier, seed, groups=("rist",), scale="2:256", scale_min=0, limit=30 if Q(tier) else 400,
-                             filter_fn=lambda s: s["sc"]["skew"] != [0, 0, 0] or s["expect"]["verify"] == "ok")
+                             filter_fn=lambda s: s["sc"]["skew"] != [0, 0, 0] or s["expect"]["verify"] == "ok",
+                             must_fn=lambda s: s["sc"]["skew"] != [0, 0, 0])
         b.name = "api:batch@256"
         return b
     return f
